@@ -1,26 +1,29 @@
 #!/usr/bin/env python3
-"""Regenerates MANIFEST.json from the table below (run after adding a check)."""
+"""Regenerates MANIFEST.json.
+
+manifest/<Cxx>.json  : {"technique", "text", "note", "ref"} written next to each check
+manifest/claimed.txt : ids whose quick check passes on the current tree (one per line)
+manifest/not_applicable.json : optional {"Cxx": "reason"} for properties deliberately not claimed
+"""
 import json, os
 V = os.path.dirname(os.path.dirname(os.path.abspath(__file__)))
+M = os.path.join(V, "manifest")
 
-CHECKS = {
- "C02": dict(
-   technique="TLA+ spec Cell.tla (exact rational minimum image with tie sets); TLC checks the six clauses as invariants over all (cell, mask, displacement) in scope; TLC-emitted cases replayed into remove_pbc; recorded calls validated by TraceCell.tla",
-   text="Exhaustive model checking of the C02 clauses on the specification within the stated scope (2-D/3-D, orthogonal and triclinic cells with tilts of either sign, all masks, integer displacement grids), plus conformance in both directions: every emitted (cell, mask) case replayed into the real remove_pbc at three length scales, and seeded random decimal cells recorded from the real code and accepted or rejected record by record by the trace specification.",
-   note="Trusts TLC, numpy's float arithmetic at 1e-9 for values the spec gives exactly, and the harness abstraction (r - w) H^-1 -> integers. Exact half-cell ties accept either image.",
-   ref="5 C02"),
-}
-
-NOT_YET = {}
 
 def main():
     props = [json.loads(l) for l in open(os.path.join(V, "properties.jsonl"))]
-    checks = []
-    na = []
-    for p in props:
-        pid = p["id"]
-        if pid in CHECKS:
-            c = CHECKS[pid]
+    claimed = [l.strip() for l in open(os.path.join(M, "claimed.txt")) if l.strip() and not l.startswith("#")]
+    na_reasons = {}
+    p = os.path.join(M, "not_applicable.json")
+    if os.path.exists(p):
+        na_reasons = json.load(open(p))
+    hooks_p = os.path.join(M, "hooks.json")
+    hook_commits = json.load(open(hooks_p)) if os.path.exists(hooks_p) else []
+    checks, na = [], []
+    for pr in props:
+        pid = pr["id"]
+        if pid in claimed:
+            c = json.load(open(os.path.join(M, pid + ".json")))
             checks.append({
                 "property_id": pid,
                 "quick_cmd": f"./check {pid} quick",
@@ -28,12 +31,15 @@ def main():
                 "evidence_file": f"/verif/evidence/{pid}.json",
                 "replay_cmd_template": f"./check {pid} --replay {{path}}",
                 "engine": "tlc+harness",
-                "level_claimed": {"category": "model_checking", "text": c["text"], "design_ref": "DESIGN.md section " + c["ref"]},
+                "level_claimed": {"category": c.get("category", "model_checking"), "text": c["text"],
+                                  "design_ref": "DESIGN.md section " + c["ref"]},
                 "level_note": c["note"],
                 "technique": c["technique"],
             })
         else:
-            na.append({"property_id": pid, "reason": NOT_YET.get(pid, "check not built yet in this session (planned with the TLA+ specification, see DESIGN.md section 5); not claimed until its quick command passes")})
+            na.append({"property_id": pid, "reason": na_reasons.get(
+                pid, "check not finished in this session (planned with the TLA+ specification, DESIGN.md section 5); "
+                     "not claimed until its quick command passes on the current tree")})
     man = {
         "version": 1,
         "setup_cmd": "./setup.sh",
@@ -41,19 +47,20 @@ def main():
             "guard": "PYMATTERSIM_VERIF",
             "enable": "no source hooks: the library is sequential and every abstract state is observable through the public API; checks import the working tree from PYMATTERSIM_SRC (default /repo) and set PYMATTERSIM_VERIF=1",
             "baseline_off_cmd": "cd /repo && /venv/bin/python -m pytest -ra -q -p no:cacheprovider --timeout=900 --continue-on-collection-errors",
-            "source_commits": [],
+            "source_commits": hook_commits,
             "add_only": True,
         },
         "engines": [
-            {"name": "tlc+harness", "path": "/verif/check", "serves_properties": sorted(CHECKS),
+            {"name": "tlc+harness", "path": "/verif/check", "serves_properties": sorted(claimed),
              "kind_free_text": "TLA+ specification under /verif/spec model-checked with TLC 1.8 (sharded), TLC-emitted cases replayed into the real library and traces recorded from the library validated by Trace*.tla specs; Python harness under /verif/harness"},
         ],
         "checks": checks,
         "not_applicable": na,
-        "notes": "See DESIGN.md. ./selftest runs curated mutants/refactors and the seeded changes against the checks.",
+        "notes": "See DESIGN.md. ./selftest runs curated mutants/refactors (mutants/*.json) and the seeded changes (seeded/*/) against the checks.",
     }
     json.dump(man, open(os.path.join(V, "MANIFEST.json"), "w"), indent=1)
     print(len(checks), "checks,", len(na), "not claimed")
+
 
 if __name__ == "__main__":
     main()
